@@ -71,6 +71,18 @@ def generate(seed, tier):
             for _ in range(total):
                 deg[rng.randrange(N)] += 1
         case["max_size"] = max(case["max_size"], max(dim))
+        if rng.random() < 0.35:
+            # the sampler object is reused: a first sample() call on a realisable pair precedes the one that is checked
+            d0 = {}
+            for _ in range(rng.randint(2, 4)):
+                s0 = rng.randint(2, min(N, 3))
+                d0[s0] = d0.get(s0, 0) + 1
+            g0 = [0] * N
+            for s0, c0 in d0.items():
+                for _ in range(c0):
+                    for n in rng.sample(range(N), s0):
+                        g0[n] += 1
+            case["first"] = {"dim_seq": [[a, b] for a, b in sorted(d0.items())], "deg_seq": g0}
         case["dim_seq"] = [[s, c] for s, c in sorted(dim.items())]
         case["deg_seq"] = deg
     return case
@@ -107,6 +119,15 @@ def _run(case, salt):
         elif case["mode"] == "sequences":
             kw["deg_seq"] = np.array(case["deg_seq"])
             kw["dim_seq"] = {s: c for s, c in case["dim_seq"]}
+        if case.get("first"):
+            try:
+                g0 = sampler.sample(deg_seq=np.array(case["first"]["deg_seq"]), dim_seq={a: b for a, b in case["first"]["dim_seq"]})
+                next(g0)
+                out["first_matching"] = sampler.matching_sequences
+            except DrawBudgetExceeded:
+                raise
+            except Exception as e:  # noqa
+                out["first_raised"] = type(e).__name__
         try:
             gen = sampler.sample(**kw)
             for _ in range(case["n_samples"]):
@@ -208,6 +229,8 @@ def execute(case):
                 raise Violation("C16/initial-hypergraph-modified", {})
         if a["matching"] is False:
             stats["not_matching"] += 1
+        if case.get("first"):
+            stats["reused_sampler"] = stats.get("reused_sampler", 0) + 1
         stats["accepted_moves"] += a.get("accepted", 0)
         stats["rejected_moves"] += a.get("rejected", 0)
     except Violation as v:
